@@ -16,3 +16,4 @@ def load_all():
     from . import registry  # noqa
     from . import construct  # noqa
     from . import fixedarray  # noqa
+    from . import render  # noqa
